@@ -89,6 +89,7 @@ type Sched struct {
 	byGID    map[uint64]*Task
 	locks    map[string]bool
 	lockWait map[string]chan struct{} // free mode: goroutines waiting for a modelled lock
+	modelled map[string]bool
 	free     bool
 	mainGID  uint64
 	last     *Task
@@ -107,6 +108,7 @@ func New(c *core.Ctx, rng *core.Rand) *Sched {
 		byGID:    map[uint64]*Task{},
 		locks:    map[string]bool{},
 		lockWait: map[string]chan struct{}{},
+		modelled: map[string]bool{},
 		anonN:    map[string]int{},
 		mainGID:  goid(),
 	}
@@ -196,9 +198,19 @@ func (t *Task) park(point string) {
 	t.parked = true
 	t.point = point
 	t.lock = ""
-	if strings.HasSuffix(point, ".pre") {
-		t.lock = strings.TrimSuffix(point, ".pre")
+	if l := strings.TrimSuffix(point, ".pre"); l != point && t.s.modelled[l] {
+		t.lock = l
 	}
+}
+
+// ModelLock declares name as a modelled mutex: a goroutine parked at
+// "<name>.pre" is enabled only while no "<name>.acquired" note is outstanding.
+// Yield points "<x>.pre" of undeclared names are plain yield points (the mutex
+// behind them is never held across a park, so no gating is needed).
+func (s *Sched) ModelLock(name string) {
+	s.mu.Lock()
+	s.modelled[name] = true
+	s.mu.Unlock()
 }
 
 // Done reports whether the task's function returned.
@@ -232,8 +244,8 @@ func (s *Sched) hookYield(point string) {
 		// Scheduling is over, but a goroutine must still not walk into a modelled
 		// mutex held by a goroutine that is blocked elsewhere (it would block
 		// non-durably and freeze the bubble): wait, durably, for the release.
-		if strings.HasSuffix(point, ".pre") {
-			s.passGate(strings.TrimSuffix(point, ".pre"))
+		if l := strings.TrimSuffix(point, ".pre"); l != point && s.modelled[l] {
+			s.passGate(l)
 		}
 		s.mu.Unlock()
 		return
